@@ -136,6 +136,11 @@ func init() {
 					for sid := 1; sid <= 6; sid++ {
 						w.open(0, sid, 51)
 						w.installCallback(0, sid, 0)
+						if dl > 0 {
+							// the first write of each stream takes the LAST sequence number before the wrap:
+							// when it fails, its number must be given back (roll-back across the wrap)
+							w.presetSeq(0, sid, vfSeqBase{ssn: 0xFFFF, mid: 0xFFFFFFFF})
+						}
 					}
 					for i := 0; i < 6; i++ {
 						sid := i + 1
@@ -149,6 +154,13 @@ func init() {
 						w.tick(time.Duration(200+300*i) * time.Millisecond)
 					}
 					w.heal(100 * time.Second)
+					// a later (successful) write on every stream: delivered normally, no hole left behind
+					for sid := 1; sid <= 6; sid++ {
+						w.stream(0, sid).SetWriteDeadline(time.Time{}) //nolint:errcheck
+						w.writeAsync(0, sid, 100+sid, 51)
+						w.heal(10 * time.Second)
+					}
+					w.heal(30 * time.Second)
 					w.snapAll = true
 					w.quiesce()
 					w.tr.emit(map[string]any{"ev": "expect", "drained": true, "t": w.now()})
